@@ -169,7 +169,7 @@ def run(ctx):
                     # only messages this path really builds: restrict to constructors invoked by events of q
                     pass
                 for e in q.events:
-                    if e.target is None:
+                    if e.target is None or e.opened:
                         continue
                     for s in model.reachable_submsgs(ix, e.target, ix.param_map(e.target, e.args)):
                         for (k2, payer, recv, amount) in transfers_of(ix, s):
